@@ -361,7 +361,10 @@ DoState(ln) ==
       vStale == IF Len(hs) = 1 /\ hs[1].kind = "is" /\ Has(hs[1], "resp") /\ hs[1].resp.ok /\ pre.up /\ sameInc
                    /\ (hs[1].req.idx < pre.applied \/ (hs[1].req.idx = pre.applied /\ pre.last > hs[1].req.idx))
                 THEN {<<"C02", "StaleSnapshotInstalled", <<n, hs[1].req.idx, pre.applied, pre.last>>>>} ELSE {}
-      V      == vStale \cup vSelf \cup vSync \cup conf \cup vTerm \cup vCommit \cup vLog \cup vOnce \cup vHole \cup vLast \cup vLead \cup vInfl \cup vStart \cup vStep
+      \* a server is in leader state only in a term it won
+      vLdr   == IF post.up /\ post.role = "L" /\ <<n, post.term>> \notin g.leaders
+                THEN {<<"C01", "LeaderStateInTermNotWon", <<n, post.term>>>>} ELSE {}
+      V      == vStale \cup vLdr \cup vSelf \cup vSync \cup conf \cup vTerm \cup vCommit \cup vLog \cup vOnce \cup vHole \cup vLast \cup vLead \cup vInfl \cup vStart \cup vStep
   IN
   /\ obs' = o2 /\ dlog' = dl2 /\ dsnaps' = ds2
   /\ g' = [g EXCEPT !.agreed = ag2, !.reported = rep2, !.hpend[n] = <<>>, !.slog[n] = postLog,
@@ -500,6 +503,9 @@ DoFsm(ln) ==
              \cup {<<"C02", "SkippedCommand", <<n, k>>>> :
                      k \in {j \in (g.fsmLast[n] + 1)..(i - 1) : j > MaxSet(g.burned) /\ (j \notin DOMAIN g.agreed \/ g.agreed[j][2] = "cmd")}}
              \cup (IF ln.id \in g.abOK THEN {<<"C02", "AbortedEntryApplied", <<n, i, ln.id>>>>} ELSE {})
+             \* at start-up (RestoreCommittedLogs) only entries known to be committed are replayed
+             \cup (IF n \in g.starting /\ ~(i \in DOMAIN g.agreed /\ g.agreed[i] = e) /\ hdr.fam # "l2"
+                   THEN {<<"C10", "RestartReplayedUncommitted", <<n, i, e>>>>} ELSE {})
     IN /\ g' = [g EXCEPT !.fsmLast[n] = Max(@, i),
                          !.abApp = IF ln.id \in DOMAIN g.abOf THEN @ \cup {<<n, i, ln.id>>} ELSE @,
                          !.reported = IF i \in DOMAIN @ THEN @ ELSE [p \in {i} |-> e] @@ @]
